@@ -112,6 +112,9 @@ def _classify_parts_expr(fn: FuncInfo, e: ast.expr, depth: int = 0, seen: Option
         return {"?"}
     if isinstance(e, (ast.GeneratorExp, ast.ListComp)):
         elt = e.elt
+        ec = _classify_elem(fn, elt, depth + 1)
+        if "?" not in ec:
+            return ec
         if isinstance(elt, ast.Call):
             name = callee_name(elt)
             if name == "_index":
@@ -149,6 +152,14 @@ def _classify_elem(fn: FuncInfo, e: ast.expr, depth: int = 0) -> Set[str]:
         if name in _STR_TO_STR:
             subject = e.args[0] if e.args else (e.func.value if isinstance(e.func, ast.Attribute) else None)
             return _classify_elem(fn, subject, depth + 1) if subject is not None else {"?"}
+        # a function defined inside this one: what it returns
+        if isinstance(e.func, ast.Name):
+            local = [n for n in ast.walk(fn.node) if isinstance(n, (ast.FunctionDef, ast.AsyncFunctionDef)) and n.name == e.func.id and n is not fn.node]
+            if len(local) == 1:
+                out2: Set[str] = set()
+                for r in [n for n in ast.walk(local[0]) if isinstance(n, ast.Return) and n.value is not None]:
+                    out2 |= _classify_elem(fn, r.value, depth + 1)
+                return out2 or {"?"}
         return {"?"}
     if isinstance(e, ast.Name):
         defs = [n.value for n in ast.walk(fn.node) if isinstance(n, ast.Assign) and len(n.targets) == 1
